@@ -84,8 +84,11 @@ def scenarios(ctx):
         spec = suite.gen_molecule_spec(rng, switching=False) if fam == "molecules" else suite.gen_spec(rng, fam)
         p = spec["params"]
         p["end"] = rng.choice([6.1, 9.3, 12.9])
-        if spec["kind"] == "spheres":
-            p["n"] = min(p["n"], 14)
+        if spec["kind"] == "spheres" and p["n"] > 14:
+            p["n"] = 14
+            if p.get("positions"):
+                p["positions"] = p["positions"][:14]
+            p["initial_active"] = min(p.get("initial_active", 0), 13)
         out.append(spec)
     out.append({"kind": "shipped", "name": "hard_disk_dipoles/single_hard_disk_dipole", "end": 60.0})
     if not ctx.quick:
